@@ -1,0 +1,24 @@
+//go:build verif
+
+// Contracts for package fileutils, checked by /verif (govc). Comments only.
+
+package fileutils
+
+// ---------------------------------------------------------------------------
+// Splitting a Newick stream (properties C02, C13): no index fault on any
+// input; the loop stops exactly when the last non-blank byte of the text
+// accumulated so far is ';' (or the reader reports an error)
+// ---------------------------------------------------------------------------
+
+//@ define blank(c byte) bool = c == 32 || c == 9
+
+//@ func io/fileutils.ReadUntilSemiColon
+//@   flag noframe
+//@   requires r != nil
+//@   loop 1
+//@     invariant [nothing_read_yet_or_only_empty_lines] len(ln) == 0 ==> lastChar == 48
+//@     invariant [lastChar_is_the_last_non_blank_byte_of_the_accumulated_text] len(ln) > 0 ==> (exists p int :: {ln[p]} 0 <= p && p < len(ln) && lastChar == ln[p] && (p == 0 || !blank(ln[p])) && (forall q int :: {ln[q]} p < q && q < len(ln) ==> blank(ln[q])))
+//@   loop 2
+//@     invariant [scan_position_in_range] 0 <= i && i < len(ln)
+//@     invariant [lastChar_is_the_byte_at_the_scan_position] lastChar == ln[i]
+//@     invariant [everything_after_the_scan_position_is_blank] forall q int :: {ln[q]} i < q && q < len(ln) ==> blank(ln[q])
